@@ -29,6 +29,9 @@ static int      kstop;          /* skeleton ended early: event not applicable */
 static int      kseen[MAXU];    /* completion already observed */
 static nng_err  kres[MAXU];     /* result as reported at completion */
 
+/* operations that had to wait (blocked senders / receivers): which waiter queue they joined and when */
+static int kwait_q[MAXU], kwait_seq[MAXU], kwait_served[MAXU], kwait_clock;
+static void kwait_check(void);
 static void
 kquiesce(void)
 {
@@ -38,6 +41,7 @@ kquiesce(void)
 	}
 	CHECK(env_callbacks_pending() == 0, "library reaches quiescence (no callback storm)");
 	CHECK(env_locks_held == 0, "no lock is held at a quiescent point");
+	kwait_check();
 }
 
 /* a message of LEN symbolic bytes (LEN concrete) */
@@ -76,6 +80,30 @@ kresult(int i)
 	return kres[i];
 }
 #define KRESULT(i) (kresult(i))
+/* KWAIT_POST(i, q): operation i was just posted, could not be served and now waits in waiter queue q */
+#define KWAIT_POST(i, q)                          \
+	do {                                      \
+		kwait_q[i]   = (q) + 1;           \
+		kwait_seq[i] = ++kwait_clock;     \
+	} while (0)
+/* waiters of one queue are served first come first served: an application that keeps several sends / receives
+ * outstanding (or several threads blocked) sees its messages in the order it issued the operations */
+static void
+kwait_check(void)
+{
+	for (int j = 0; j < MAXU; j++) {
+		if (!kwait_q[j] || kwait_served[j] || !uaio_used[j] || env_aio_completed(&uaio_at(j)) == 0)
+			continue;
+		kwait_served[j] = 1;
+		if (nni_aio_result(&uaio_at(j)) != 0)
+			continue; /* cancelled, timed out, closed: says nothing about service order */
+		for (int i = 0; i < MAXU; i++) {
+			if (i == j || kwait_q[i] != kwait_q[j] || kwait_seq[i] > kwait_seq[j] || kwait_served[i])
+				continue;
+			CHECK(env_aio_completed(&uaio_at(i)) > 0, "of two operations waiting in the same queue the one that waited first is served first");
+		}
+	}
+}
 #define KNEED(cond)            \
 	do {                   \
 		if (!(cond)) { \
